@@ -6,6 +6,8 @@ package fixture
 
 import (
 	"bytes"
+	"crypto/ecdsa"
+	"crypto/elliptic"
 	"encoding/asn1"
 	"errors"
 	"io"
@@ -70,6 +72,15 @@ func indexNoTest(name string) string {
 // ERR-DROP: error result dropped.
 func dropError(path string) {
 	os.Remove(path)
+}
+
+// ERR-POLARITY: the test is the wrong way round.
+func invertedErrCheck(s string) (int, error) {
+	v, err := strconv.Atoi(s)
+	if err == nil {
+		return 0, err
+	}
+	return v, nil
 }
 
 // ERR-DROP (stated belief): error blank-assigned, value used.
@@ -235,4 +246,51 @@ func useMaybeNil(k string) string {
 		return ""
 	}
 	return n.name()
+}
+
+// LINT-NILDEREF: the guard is joined with the wrong connective.
+type node struct{ next *node }
+
+func derefKnownNil(n *node) bool {
+	if n == nil && n.next == nil {
+		return true
+	}
+	return false
+}
+
+// LINT-CONSTIDX
+func constIndexBeyondMake() byte {
+	b := make([]byte, 1)
+	return b[1]
+}
+
+// ASN1-RAWSEQ
+func primitiveSequence(b []byte) ([]byte, error) {
+	return asn1.Marshal(asn1.RawValue{Tag: asn1.TagSequence, Bytes: b})
+}
+
+// BITSTRING-LEN
+func bitLengthNotEightTimes(b []byte) asn1.BitString {
+	return asn1.BitString{Bytes: b, BitLength: len(b) * 9}
+}
+
+// POINT-ORDER
+func swappedCoordinates(k *ecdsa.PublicKey) []byte {
+	return elliptic.Marshal(k.Curve, k.Y, k.X)
+}
+
+// LINT-NILPHI: the assignment is missing on one branch.
+func useOfMaybeUnset(a bool, n *node) *node {
+	var p *node
+	if a {
+		p = n
+	}
+	return p.next
+}
+
+// LINT-PADCOPY
+func padCopyWrongOffset(src []byte) []byte {
+	buf := make([]byte, 32)
+	copy(buf[len(buf)+len(src):], src)
+	return buf
 }
